@@ -114,7 +114,7 @@ def wellformed(p, numpoly):
         exps = numpy.asarray(p.exponents)
         coefs = p.coefficients
         names = tuple(p.names)
-        keys = [str(k) for k in p.keys]
+        keys = list(p.keys)
     except Exception as err:
         return "attributes-raise", repr(err)
     if exps.ndim != 2:
@@ -139,7 +139,11 @@ def wellformed(p, numpoly):
     if len(keys) != N:
         return "keys-length", "%d keys for %d terms" % (len(keys), N)
     for k, row in zip(keys, exps.tolist()):
-        if [ord(ch) - 59 for ch in k] != [int(x) for x in row]:
+        try:
+            decoded = [ord(ch) - 59 for ch in k]
+        except Exception as err:  # e.g. a key holding an invalid code point
+            return "key-decoding", "key of exponent row %s cannot be read: %r" % (row, err)
+        if decoded != [int(x) for x in row]:
             return "key-decoding", "key %r does not decode to exponent row %s" % (k, row)
     raw = p.values
     if tuple(raw.dtype.names or ()) != tuple(keys):
@@ -399,7 +403,7 @@ def check_case(case, ctx):
         ctx.label("call-raised")
         return []
     polys = collect(res, numpoly, [])
-    if case["second"] != "none" and polys:
+    if case["second"] != "none" and polys and polys[0].size:  # (size-0 operands: known finding, excluded)
         try:
             polys = polys + [second_op(polys[0], case["second"], numpoly)]
             ctx.label("two-step:" + case["second"])
